@@ -44,13 +44,18 @@ Fixpoint eloop (cfg : ecfg) (s : store) (cur : cursor) (n : nat) (lasth : Z) (hs
     | (s', Duplicate) => eloop cfg s' cur n lasth r
     | (s', Forbidden) => EStop s' cur
     | (s', ErrNoTip) => eloop cfg s' cur n lasth r
-    | (s', Stored Longest) =>
+    | (s', Stored x) =>
       let hh := height (create_header s h) in
-      match verify_advance (x_cps cfg) cur hh (s_id h) with
-      | VErr => EStop s' cur
-      | VOk cur' => eloop cfg s' cur' (S n) hh r
+      (* a26f54a: compared with the configured checkpoint at its height before the longest-chain test *)
+      if contradicts (x_cps cfg) x hh (s_id h) then EStop s' cur else
+      match x with
+      | Longest =>
+        match verify_advance (x_cps cfg) cur hh (s_id h) with
+        | VErr => EStop s' cur
+        | VOk cur' => eloop cfg s' cur' (S n) hh r
+        end
+      | _ => eloop cfg s' cur n lasth r
       end
-    | (s', Stored _) => eloop cfg s' cur n lasth r
     end
   end.
 
